@@ -100,11 +100,29 @@ def run_job(job):
                 res = (Fs @ C - C * e.unsqueeze(0)).abs().max(dim=0).values
                 nrm = (C * C).sum(dim=0)
                 eigres.append([fx(x) + fx(abs(float(y) - 1.0)) for x, y in zip(res, nrm)])
+        # dipole implied by the published charges, coordinates and density (driver's own arithmetic; unit: the code's e*Angstrom -> a.u.)
+        DU = 1.889851
+        dqs, dh = [[], [], []], [0.0, 0.0, 0.0]
+        if mol.dipole is not None and job["path"] != "xl":
+            zs, zp = mol.parameters["zeta_s"].detach(), mol.parameters["zeta_p"].detach()
+            first = int((mol.species[:m] > 0).sum())          # parameters are stored for real atoms only, batch-flattened
+            Pm = (mol.dm[m, 0] + mol.dm[m, 1]) if uhf else mol.dm[m]
+            for a in range(n):
+                R = mol.coordinates[m, a].detach()
+                for d_ in range(3):
+                    dqs[d_].append(fx(float(mol.q[m, a]) * float(R[d_]) * DU))
+                if Z[a] > 2:
+                    qn = 2.0 if Z[a] <= 10 else 3.0
+                    s_, p_ = float(zs[first + a]), float(zp[first + a])
+                    dd = (2.0 * qn + 1.0) * (4.0 * s_ * p_) ** (qn + 0.5) / (s_ + p_) ** (2.0 * qn + 2.0) / 3.0 ** 0.5 * 0.529167
+                    for d_ in range(3):
+                        dh[d_] += -2.0 * dd * float(Pm[4 * a, 4 * a + 1 + d_]) * DU
         recs.append({
             "id": f"{job['id']}/{m}", "path": job["path"], "fresh": fresh,
             "Etot": fx(mol.Etot[m]), "Eelec": fx(mol.Eelec[m]), "Enuc": fx(mol.Enuc[m]), "Eexc": eexc, "Hf": fx(mol.Hf[m]), "Eiso": fx(mol.Eiso[m]),
             "Z": Z, "gap": gap, "homo": homo, "lumo": lumo, "emo": emo, "q": [fx(x) for x in mol.q[m, :n]], "core": [int(tore[z]) for z in Z], "dp": dp,
             "dshift": [fx(x) for x in dshift[m]] if dshift is not None else [int(mol.tot_charge[m]) * k * 1889851 for k in (1, 2, -3)],
+            "dq": dqs if dqs[0] else [[0], [0], [0]], "dh": [fx(x) for x in dh], "dipf": bool(dqs[0]),
             "emo0": emo0, "nocc": nocc if uhf else [nocc], "tracked": not uhf, "eigres": eigres,
             "rot": job.get("second") == "rotate" and dip_first is not None,
             "dip": [fx(x) for x in mol.dipole[m]] if mol.dipole is not None else [0, 0, 0],
